@@ -10,12 +10,18 @@ PROPERTY = {
     "technique": "contract-based verification: Kani harnesses with rely/guarantee stubs for the atomic + Verus trace lemma",
     "timeout": 900,
     "kani": [
-        Harness("c18_compute_next", "C18.compute_next.gt_last", "PROVED-C", "compute_next(last) > last for all last in 0..i64::MAX, all clock readings, all warning configs", functions=[F + "MonotonicTimestampGenerator::compute_next"]),
+        Harness("c18_compute_next", "C18.compute_next.gt_last", "PROVED-C", "compute_next(last) > last for all last in 0..i64::MAX, all clock readings, all warning configs (standalone; > 15 min on cadical, thorough only — the guarantee harness below checks the same fact inside next_timestamp)", tier="thorough", timeout=3000, functions=[F + "MonotonicTimestampGenerator::compute_next"]),
         Harness("c18_next_timestamp_guarantee", "C18.next_timestamp.guarantee", "BOUNDED", "one call = exactly one successful CAS(old,new), new > old, returns new; under <= 2 interferences", bound="<= 2 interfering writes by other threads per call (unwind 4)", functions=[F + "MonotonicTimestampGenerator::next_timestamp"]),
         Harness("c18_next_timestamp_two_calls", "C18.next_timestamp.thread_order", "BOUNDED", "two consecutive calls of one thread: second > first", bound="<= 2 interfering writes in total (unwind 4)", functions=[F + "MonotonicTimestampGenerator::next_timestamp"]),
-        Harness("c18_canary_compute_next_is_last_plus_one", "C18.canary", "PROVED-C", "a false claim must be refuted", carries=False, canary=True),
+        Harness("c18_canary_always_last_plus_one", "C18.canary", "PROVED-C", "a false claim must be refuted", carries=False, canary=True),
     ],
-    "verus": [],
+    "verus": [
+        Unit("c18_trace", "C18", "c18_trace.vrs", desc={
+            "lemma_pairwise_distinct": "any history of guarantee-satisfying CAS steps: all returned timestamps pairwise distinct",
+            "lemma_per_thread_increasing": "... and strictly increasing along each thread's calls",
+            "lemma_strictly_increasing": "the cell's installed values strictly increase",
+        }, carries_lemmas=("lemma_pairwise_distinct", "lemma_per_thread_increasing", "lemma_strictly_increasing")),
+    ],
     "trusted_base": ["Kani/CBMC soundness", "stubs: SystemTime::now (any reading), Instant::now (zero), Atomic<i64>::load/compare_exchange (sequentially consistent cell + rely), std::rt::thread_cleanup (no-op, Kani ICE work-around)"],
     "assumptions": ["AtomicI64 SeqCst CAS is linearizable", "wall clock < 2^63 microseconds from the epoch", "other threads only raise `last` (they run the same code: the guarantee proved here is the rely)"],
     "not_covered": ["explicit statement timestamp precedence (connection.rs, async)", "unbounded CAS contention (liveness)"],
